@@ -11,7 +11,7 @@ OK, VIOLATED, UNKNOWN = 'discharged', 'violated', 'unknown'
 # structure, arithmetic): their violations are exempt from the vocabulary guard
 ROBUST_RULES = ('PRED', 'ARGSWAP', 'DIVSAFE', 'SHARED', 'PURE', 'CACHEINV', 'NAMEUSE', 'ANGIDX', 'UNIQGUARD', 'NONETEST', 'FLAVOUR',
                 'SIGN', 'SELORDER', 'LAY', 'FIT', 'CHAIN', 'USE', 'POWNAME', 'TILE', 'DISPATCH', 'DECOMP', 'ENDPOINT', 'PAIR', 'REKEY', 'BIND', 'EXC',
-                'ECHO', 'SOLVERARG', 'MUTDEFAULT', 'INDEXORDER', 'DUPROW', 'STARTDOM', 'UNIQLAST', 'NAMESPACE', 'LAYTOPS', 'SIMULFIRST', 'JUSTTEST')
+                'ECHO', 'SOLVERARG', 'MUTDEFAULT', 'INDEXORDER', 'DUPROW', 'STARTDOM', 'UNIQLAST', 'NAMESPACE', 'LAYTOPS', 'SIMULFIRST', 'JUSTTEST', 'LOOPCARRY', 'NAMEIN', 'SETTERORDER', 'JUSTARG', 'STRREAD', 'TIMEPAIR')
 
 
 # rules that only take an inventory (evidence, no verdict): their instance count may change freely
